@@ -27,7 +27,8 @@
 //   sm <s> <t> / sg <s> <t>        S_s << std::move(S_t)  /  S_s = std::move(S_t)   (merge of whole suspend points)
 //   rm <s> <i> <v|e|d>             S_s << P_i(..): the suspend point returned by a resolution is merged into S_s
 //   gen <g> <H|N> <n>              create synchronous generator G_g yielding 0..n-1
-//   gs <g> <n|f>                   step: bool(G.next()) / future = G()
+//   gs <g> <n|f|b|r>               step: bool(G.next()) / future = G() / G.begin() != G.end() / range-for over whatever is left
+//                                  (`for (int v : G)`: begin(), operator++ until end()), head `items=<k>`
 //   gd <g>                         destroy G_g
 //   end                            drain (release, resolve with drop, unpark, flush until nothing moves), destroy everything
 //
@@ -35,7 +36,14 @@
 //   c<j>:<act>[=..] coroutine j executed that action, c<j>:end finished;  cb<i> callback of F_i fired;
 //   a:<cat>+<n> allocation, f:<cat>-<n> release;  cat = frame (n = 1), growth (n = cells of the handle array),
 //   resolve-suspend-point-growth (the same, for the suspend point a resolution collects the released coroutines in),
-//   ready-queue-node (n = bytes; allocations made by the thread-local std::deque of coro_queue), other (n = bytes)
+//   ready-queue-node (n = bytes; allocations made by the thread-local std::deque of coro_queue), other (n = bytes),
+//   exception (n = 1: an exception object / dependent exception allocated by the C++ runtime for a `throw` /
+//   `rethrow_exception` executed by library code: strong definitions of __cxa_allocate_exception and
+//   __cxa_allocate_dependent_exception in this executable, forwarding with dlsym(RTLD_NEXT); works under ASan, which does
+//   not intercept them), malloc (n = bytes: malloc/calloc/realloc called directly, seen through ASan's
+//   __sanitizer_malloc_hook; main thread only — a fresh thread's first thread_local registration callocs inside glibc)
+//   c<j>:caught / m:caught  the user code of coroutine j / ordinary code caught an exception the library threw TO IT
+//   (reading a future that was resolved without a value): such an exception object is the caller's, every other is the library's
 #include <algorithm>
 #include <atomic>
 #include <cassert>
@@ -48,6 +56,7 @@
 #include <cstdio>
 #include <cstdlib>
 #include <cstring>
+#include <dlfcn.h>
 #include <deque>
 #include <exception>
 #include <functional>
@@ -77,8 +86,8 @@
 // ------------------------------------------------------------------------------------------------
 namespace al {
 
-enum Cat { FRAME, GROWTH, RGROWTH, RQ, OTHER };
-static const char *cat_name[] = {"frame", "growth", "resolve-suspend-point-growth", "ready-queue-node", "other"};
+enum Cat { FRAME, GROWTH, RGROWTH, RQ, OTHER, EXC, RAWMALLOC };
+static const char *cat_name[] = {"frame", "growth", "resolve-suspend-point-growth", "ready-queue-node", "other", "exception", "malloc"};
 
 struct Blk { Cat cat; long n; };
 
@@ -86,6 +95,13 @@ struct Blk { Cat cat; long n; };
 static thread_local int measuring = 0;     // > 0: inside the measured region
 static thread_local int guard = 0;         // > 0: the harness's own bookkeeping is running: not logged
 static thread_local bool in_hook = false;  // the log's own containers allocate
+static thread_local int in_known = 0;      // > 0: malloc is being called by a channel that logs for itself (operator new, the
+                                           // tagging allocator, the exception allocation of the C++ runtime)
+static thread_local bool raw_armed = false;  // this thread reports direct malloc calls (main thread only)
+struct known {
+    known() { ++in_known; }
+    ~known() { --in_known; }
+};
 // a handle array allocated while a resolution (promise call / drop / destructor, bound callable, final_suspend of a bound
 // coroutine) collects the released coroutines is `resolve-suspend-point-growth`; any other handle array is `growth`
 static thread_local int in_resolution = 0;      // the harness is inside a call that resolves a future
@@ -122,7 +138,15 @@ static void note_alloc(void *p, Cat c, long n, bool log) {
     if (log) evs->push_back(std::string("a:") + cat_name[c] + "+" + std::to_string(n));
 }
 
+// an allocation that is not tied to a block the harness tracks (exception objects, direct malloc)
+static void note_event(Cat c, long n) {
+    hook h;
+    evs->push_back(std::string("a:") + cat_name[c] + "+" + std::to_string(n));
+}
+static bool logging() { return !in_hook && live && measuring > 0 && guard == 0; }
+
 static void *do_new(std::size_t sz, bool array) {
+    known k;
     void *p = std::malloc(sz ? sz : 1);
     if (!p) throw std::bad_alloc();
     if (!in_hook && live && measuring > 0 && guard == 0) {
@@ -162,6 +186,7 @@ struct tag_alloc {
     template <typename U>
     tag_alloc(const tag_alloc<U> &) noexcept {}
     T *allocate(std::size_t n) {
+        known k;
         void *p = std::malloc(n * sizeof(T));
         if (!p) throw std::bad_alloc();
         // tracked even outside the measured region (the main thread's queue is rebuilt before every case), so that
@@ -177,6 +202,29 @@ struct tag_alloc {
 };
 
 }  // namespace al
+
+// ---- the allocation channels besides operator new ----------------------------------------------------------------
+// every `throw` allocates its exception object through __cxa_allocate_exception (-> malloc, not operator new), every
+// std::rethrow_exception a dependent exception through __cxa_allocate_dependent_exception: defined here, they interpose the
+// ones of libstdc++.so for the whole process (calls from the headers compiled into this executable and from libstdc++ itself)
+extern "C" void *__cxa_allocate_exception(std::size_t sz) noexcept {
+    using fn = void *(*)(std::size_t);
+    static fn real = reinterpret_cast<fn>(dlsym(RTLD_NEXT, "__cxa_allocate_exception"));
+    if (al::logging()) al::note_event(al::EXC, 1);
+    al::known k;
+    return real(sz);
+}
+extern "C" void *__cxa_allocate_dependent_exception() noexcept {
+    using fn = void *(*)();
+    static fn real = reinterpret_cast<fn>(dlsym(RTLD_NEXT, "__cxa_allocate_dependent_exception"));
+    if (al::logging()) al::note_event(al::EXC, 1);
+    al::known k;
+    return real();
+}
+// ASan calls this after every malloc / calloc / realloc of the process
+extern "C" void __sanitizer_malloc_hook(const volatile void *, std::size_t sz) {
+    if (al::raw_armed && al::in_known == 0 && al::logging()) al::note_event(al::RAWMALLOC, (long)sz);
+}
 
 void *operator new(std::size_t sz) { return al::do_new(sz, false); }
 void *operator new[](std::size_t sz) { return al::do_new(sz, true); }
@@ -401,6 +449,8 @@ struct Runner {
                         VT &v = co_await *f.f;
                         (void)v;
                     } catch (...) {
+                        // the future was resolved without a value: the library reports that to this code by an exception
+                        al::tokf("c%d:caught%s", id, "");
                     }
                     break;
                 }
@@ -476,10 +526,13 @@ struct Runner {
             al::hguard g;
             return "v:" + std::to_string(v);
         } catch (const await_canceled_exception &) {
+            al::tok("m:caught");
             return "canceled";
         } catch (const test_exc &) {
+            al::tok("m:caught");
             return "exc";
         } catch (...) {
+            al::tok("m:caught");
             return "other";
         }
     }
@@ -561,7 +614,7 @@ struct Runner {
 
     // a real thread blocks in future::sync(); the operation returns once its awaiter is in the chain
     struct peek : future<VT> {
-        static awaiter *head(future<VT> &f) { return static_cast<peek &>(f)._awaiter.load(std::memory_order_acquire); }
+        static awaiter *head(future<VT> &f) { return static_cast<peek &>(f).VN_future_common__awaiter.load(std::memory_order_acquire); }
     };
     std::string op_bt(int i) {
         Fut &f = futs[i];
@@ -790,6 +843,21 @@ struct Runner {
             al::hguard gd;
             return has ? "v:" + std::to_string(f.value()) : std::string("done");
         }
+        if (mode == 'r') {
+            // a whole pass in the range-for spelling (on an exhausted generator: begin() == end() at once)
+            long items = 0, sum = 0;
+            for (int v : G.g) { ++items; sum += v; }
+            (void)sum;
+            al::hguard gd;
+            return "items=" + std::to_string(items);
+        }
+        if (mode == 'b') {
+            auto it = G.g.begin();
+            bool b = it != G.g.end();
+            long v = b ? (long)*it : 0;
+            al::hguard gd;
+            return b ? "v:" + std::to_string(v) : std::string("done");
+        }
         bool b = G.g.next();
         al::hguard gd;
         return b ? "v:" + std::to_string(G.g.value()) : std::string("done");
@@ -875,7 +943,7 @@ struct Runner {
                      w[3].size() == 1 && std::strchr("ved", w[3][0])) head = op_rm(a, b, w[3][0]);
             else if (k == "gen" && w.size() == 4 && to_nat(w[1], a) && a < MAXID && (w[2] == "H" || w[2] == "N") &&
                      to_nat(w[3], b)) head = op_gen(a, w[2] == "H", b);
-            else if (k == "gs" && w.size() == 3 && to_nat(w[1], a) && a < MAXID && (w[2] == "n" || w[2] == "f")) head = op_gs(a, w[2][0]);
+            else if (k == "gs" && w.size() == 3 && to_nat(w[1], a) && a < MAXID && (w[2] == "n" || w[2] == "f" || w[2] == "b" || w[2] == "r")) head = op_gs(a, w[2][0]);
             else if (k == "gd" && w.size() == 2 && to_nat(w[1], a) && a < MAXID) head = op_gd(a);
             else if (k == "end" && w.size() == 1) { end_head = op_end(); join_woken(false); continue; }
             join_woken(false);
@@ -940,6 +1008,7 @@ int main() {
     al::mtx = new std::mutex();
     al::evs = new std::vector<std::string>();
     al::live = new std::map<void *, al::Blk>();
+    al::raw_armed = true;
     std::string line;
     std::vector<std::string> lines;
     bool in_case = false, fresh = false;
